@@ -347,7 +347,7 @@ pub struct ProgGen<'a> {
     guards: u32,
     /// measure the cost of running (prog, env) under cfg.flags with given
     /// extra flags; provided by the caller (uses the real interpreter)
-    pub measure: &'a dyn Fn(&Forest, Id, Id, ClvmFlags) -> Option<u64>,
+    pub measure: &'a dyn Fn(&Forest, Id, Id, Option<u32>) -> Option<u64>,
     pub points: &'a Points,
     in_guard_ext: Option<u32>,
 }
@@ -370,7 +370,7 @@ impl<'a> ProgGen<'a> {
         f: &'a mut Forest,
         r: &'a mut Rng,
         cfg: ProgCfg,
-        measure: &'a dyn Fn(&Forest, Id, Id, ClvmFlags) -> Option<u64>,
+        measure: &'a dyn Fn(&Forest, Id, Id, Option<u32>) -> Option<u64>,
         points: &'a Points,
     ) -> Self {
         ProgGen {
@@ -1144,11 +1144,7 @@ impl<'a> ProgGen<'a> {
 
         let new_model = self.cfg.flags.contains(ClvmFlags::NEW_COST_MODEL);
         let guard_cost = if new_model { 500 } else { 140 };
-        let mut extra = ClvmFlags::empty();
-        if ext == 1 || (new_model && ext == 0) {
-            extra |= ClvmFlags::ENABLE_KECCAK_OPS_OUTSIDE_GUARD;
-        }
-        let measured = (self.measure)(self.f, inner, env_val, extra);
+        let measured = (self.measure)(self.f, inner, env_val, Some(ext));
         let mut declared: u64 = match measured {
             Some(c) => c + guard_cost,
             None => self.r.range(1, 5000),
